@@ -40,5 +40,6 @@ WebAnnoMatches(exp, got) ==
     /\ got.ok = exp.ok /\ got.wf = exp.wf
     /\ got.targets = exp.targets /\ got.extra = exp.extra
     /\ Range(got.others) = Range(exp.others)   \* which non-text items are named (a repeated mention is not an error)
-    /\ BagOf(got.body) = BagOf(exp.body)      \* a JSON object has no member order
+    \* a JSON object has no member order; an annotation that lists the same data item twice has the same body
+    /\ Range(got.body) = Range(exp.body)
 =============================================================================
